@@ -9,7 +9,10 @@ Three exhaustive families (explorer I):
 import itertools
 import numpy as np
 
-from ..engine.explore import Outcome
+from ..engine.explore import Outcome, Refill, Holder
+
+_refill = Refill()
+_holder = Holder()
 from ..engine import enum
 
 PID = 'C14'
@@ -82,6 +85,8 @@ def cases(tier, seed):
                     yield ('align', trip, q, npnt, kind, seed)
         for npnt in NPOINTS:
             yield ('align', trip, 'affine-partial', npnt, 'linear', seed)
+            # one phase step of 3.3 / 3.6 / 4.2 rad inside every cycle (legal: increasing, below the 1.5 pi wrap threshold)
+            yield ('align', trip, 'affine-jump', npnt, 'linear', seed)
 
 
 def decode_case(c):
@@ -227,11 +232,17 @@ def check_stat_dtype(case, dtype):
             want = np.array([f(vals[lab == c]) for c in range(K)], dtype=float)
         for out in (None, 'samples'):
             try:
-                got = get_cycle_stat(lab.copy(), vals.copy(), out=out, func=f)
+                # caller-owned buffers refilled in place from call to call (one pair per shape / dtype)
+                lab_in, val_in = _refill(lab, 'lab'), _refill(vals, 'val')
+                got = get_cycle_stat(lab_in, val_in, out=out, func=f)
             except Exception as e:
                 viols.append(('stat:raise:%s' % type(e).__name__, 'labels=%s func=%s out=%r raised %r' % (list(v), name, out, e)))
                 continue
             trans += 1
+            if not (np.array_equal(lab_in, lab) and np.array_equal(val_in, vals)):
+                viols.append(('stat:input-modified', 'labels=%s func=%s out=%r: the label or value array was changed' % (list(v), name, out)))
+            for m_ in _holder.swap(got, 'get_cycle_stat labels=%s func=%s out=%r' % (list(v), name, out)):
+                viols.append(('stat:earlier-result-changed', m_))
             got = np.asarray(got, dtype=float)
             if out is None:
                 exp = want
@@ -309,11 +320,25 @@ def cycle_phase(n, j):
     return u * 2 * np.pi
 
 
+def jump_phase(n, j):
+    """n increasing phase samples in (0, 2 pi) with one step of 3.3 / 3.6 / 4.2 rad between two neighbours."""
+    J = (3.3, 3.6, 4.2)[j % 3]
+    k = max(1, n // 2)
+    lo = 0.05 + 0.9 * (np.arange(k) + 0.5) / k
+    m = n - k
+    hi = lo[-1] + J + (2 * np.pi - 0.02 - lo[-1] - J) * (np.arange(m) + 0.0) / max(m, 1)
+    return np.r_[lo, hi]
+
+
 def check_align(case):
     from emd.cycles import phase_align
     from emd.spectra import define_hist_bins
     _, trip, q, npnt, kind, seed = case
-    if q.endswith('-partial'):
+    if q.endswith('-jump'):
+        q = q[:-5]
+        ph = np.concatenate([jump_phase(n, j + seed) for j, n in enumerate(trip)])
+        partial = True
+    elif q.endswith('-partial'):
         q = q[:-8]
         ph = np.concatenate([cycle_phase(n, j) for j, n in enumerate(trip)])
         partial = True
